@@ -30,6 +30,13 @@ Audit after round 3 (classes of inputs, not particular changes):
   histories, selections by pattern (`copy`, `clear`) produce the next state;
 * references — the reference matcher computes the common path from the keys with its own code (not `db.common`);
 * crashes — an exception while building a database or running a history step is a failing clause.
+
+Round 5 (aliasing of what the database hands out): every listing / container a selection returns (`list()` in all its spellings, with
+and without patterns, relative; `getm` / `getd` containers; `getl`) is edited in place by the caller (sort / reverse / trim / pop /
+clear / append / overwrite / rotate) — a history step that registers and removes nothing — and the clauses are evaluated again against
+the harness's own record of the registration order taken BEFORE the step (not `db.register_keys` read afterwards): the complete listing,
+`'*'`, the relative listing, the common path, `getm` keys, containment and single retrieval of every key, iteration.  Query kind
+`owned`, asked of every database state (also after every step of the staged histories).
 """
 import contextlib
 import fnmatch as pyfnmatch
@@ -851,6 +858,8 @@ def _evaluate(chk, db, vals, base, what, arg, reply=None, rel=False, defer=None)
         if got != [k]:
             chk.fail("every registered series is selected unambiguously by its own listed relative name joined with the common path "
                      "(the full key as the GUI rebuilds it)", dict(inp, joined=joined), [k], got, clause="self-relative")
+    elif what == "owned":
+        owned(chk, db, vals, keys, inp, arg)
     elif what == "spell":
         spellings(chk, db, vals, keys, inp, arg)
     elif what == "entry":
@@ -996,7 +1005,110 @@ def entries(chk, db, vals, keys, inp, arg):
         verdict("rename(pattern, new) on a copy", exp, attempt(renamed))
 
 
-def enqueue(rng, quick, db, npats, nlists, extra_pats=(), extra_lists=(), nspell=3, nentry=2):
+
+# ---------------------------------------------------------------------------------------------------------------------------------
+# what the database hands out belongs to the caller
+# ---------------------------------------------------------------------------------------------------------------------------------
+# sources: every way to be handed a listing / a container of the selected series (label -> call on the database)
+OWN_SOURCES = [("list()", lambda db: db.list()),
+               ("list(display=False)", lambda db: db.list(display=False)),
+               ("list(None, False, False)", lambda db: db.list(None, False, False)),
+               ("list(names=None, relative=False)", lambda db: db.list(names=None, relative=False)),
+               ("list(relative=True)", lambda db: db.list(relative=True)),
+               ("list(names='*')", lambda db: db.list(names="*")),
+               ("list(names='*', relative=True)", lambda db: db.list(names="*", relative=True)),
+               ("list(names=['*'])", lambda db: db.list(names=["*"])),
+               ("getm(fullkey=True)", lambda db: db.getm(fullkey=True, store=False)),
+               ("getd(fullkey=True)", lambda db: db.getd(fullkey=True, store=False)),
+               ("getl()", lambda db: db.getl(store=False))]
+OWN_EDITS = ["sort", "reverse", "trim", "pop", "clear", "append", "overwrite", "rotate"]
+BOGUS = "zz not registered [-]"
+
+
+def edit_in_place(obj, how):
+    """the caller tidies up a list / dict it was handed (in place: the very object is changed)"""
+    if isinstance(obj, dict):
+        items = list(obj.items())
+        edit_in_place(items, how)
+        obj.clear()
+        for k, v in items:
+            obj[k] = v
+        return
+    if how == "sort":
+        obj.sort(key=lambda x: x if isinstance(x, str) else repr(x))
+    elif how == "reverse":
+        obj.reverse()
+    elif how == "trim":
+        del obj[max(1, len(obj) // 2):]
+    elif how == "pop":
+        if obj:
+            obj.pop(0)
+    elif how == "clear":
+        del obj[:]
+    elif how == "append":
+        obj.append((BOGUS, None) if obj and isinstance(obj[0], tuple) else BOGUS)
+    elif how == "overwrite":
+        if obj:
+            obj[0] = (BOGUS, None) if isinstance(obj[0], tuple) else BOGUS
+    elif how == "rotate":
+        obj[:] = obj[1:] + obj[:1]
+
+
+def observe(db, keys):
+    """the property's observation points on the database, for the keys the harness has on record"""
+    def one(k):
+        g = attempt(lambda: db.get(name=k, store=False))
+        return g if isinstance(g, str) else float(g.x[0])
+    return dict(listing=attempt(lambda: list(db.list(display=False))),
+                star=attempt(lambda: list(db.list(names="*", display=False))),
+                relative=attempt(lambda: list(db.list(display=False, relative=True))),
+                common=attempt(lambda: db.common),
+                getm=attempt(lambda: list(db.getm(fullkey=True, store=False).keys())),
+                contained=[attempt(lambda: k in db) for k in keys],
+                got=[one(k) for k in keys],
+                iterated=attempt(lambda: first_values(list(db))),
+                n=attempt(lambda: len(db)))
+
+
+def owned(chk, db, vals, keys, inp, arg):
+    """history step "the caller edits what it was handed" (`arg` = [source label, edit]): nothing is registered or removed, so every
+    clause holds as before — evaluated against `keys` / `vals`, the harness's record of the registration taken before the step."""
+    src, how = arg
+    f = dict(OWN_SOURCES)[src]
+    before = observe(db, keys)
+    quiet = io.StringIO()
+    with contextlib.redirect_stdout(quiet):
+        handed = f(db)
+    edit_in_place(handed, how)
+    after = observe(db, keys)
+    tail = " — also after the caller edited in place (%s) what %s had returned to it" % (how, src)
+    if after["listing"] != keys:
+        chk.fail("without a pattern every registered series is listed, in registration order" + tail, inp, keys, after["listing"],
+                 clause="owned-all")
+    if after["star"] != keys:
+        chk.fail("the pattern '*' selects every registered series, in registration order" + tail, inp, keys, after["star"],
+                 clause="owned-star")
+    if after["getm"] != keys:
+        chk.fail("retrieval of all series (getm keys) returns every registered series, in registration order" + tail, inp, keys,
+                 after["getm"], clause="owned-getm")
+    if after["contained"] != [True] * len(keys):
+        chk.fail("every registered series is contained by its full key" + tail, inp, [True] * len(keys), after["contained"],
+                 clause="owned-in")
+    if any(isinstance(g, str) for g in after["got"]) or (vals is not None and after["got"] != vals):
+        chk.fail("every registered series is retrieved by its full key (single retrieval agrees with the listing)" + tail, inp,
+                 vals if vals is not None else "a series per key", after["got"], clause="owned-get")
+    if vals is not None and after["iterated"] != vals:
+        chk.fail("iteration retrieves every registered series, in registration order" + tail, inp, vals, after["iterated"],
+                 clause="owned-iter")
+    # whatever else was observed is as it was before the step (relative listing, common path, number of series)
+    for what, text in (("relative", "the relative listing"), ("common", "the common path"), ("n", "the number of series"),
+                       ("iterated", "the data retrieved by iteration"), ("got", "the data retrieved by every full key")):
+        if after[what] != before[what]:
+            chk.fail("a selection depends on the registered series and their registration order only: %s is as it was" % text + tail,
+                     inp, before[what], after[what], clause="owned-same")
+
+
+def enqueue(rng, quick, db, npats, nlists, extra_pats=(), extra_lists=(), nspell=3, nentry=2, nowned=0, extra_owned=()):
     """the queries asked of one database state: (what, arg, rel) triples"""
     keys = list(db.register_keys)
     pats = patterns(db)
@@ -1005,6 +1117,10 @@ def enqueue(rng, quick, db, npats, nlists, extra_pats=(), extra_lists=(), nspell
         if p not in chosen:
             chosen.append(p)
     q = [("common", None, False), ("rel", None, False), ("none", None, False)]
+    # the caller edits what it was handed: before the other queries, which then run on the database after that step (only in the
+    # queries of a history step, which are recorded in the spec and asked again on replay) ...
+    for a in [list(a) for a in extra_owned] + [[rng.choice(OWN_SOURCES)[0], rng.choice(OWN_EDITS)] for _ in range(nowned)]:
+        q.append(("owned", a, False))
     for p in chosen:
         q += [("list", p, False), ("get", p, False), ("in", p, False)]
     for _ in range(3):
@@ -1029,6 +1145,8 @@ def enqueue(rng, quick, db, npats, nlists, extra_pats=(), extra_lists=(), nspell
         q.append(("entry", a, False))
     if rng.random() < 0.5:
         q.append(("iter", None, False))
+    # ... and after them (the listing handed out last)
+    q.append(("owned", [rng.choice(OWN_SOURCES)[0], rng.choice(OWN_EDITS)], False))
     return q
 
 
@@ -1052,48 +1170,63 @@ def run(chk):
     cwd = os.getcwd()
     try:
         gen = Gen(rng)
-        scns = []          # (spec, extra single patterns, extra pattern lists)
+        scns = []          # (spec, extra single patterns, extra pattern lists, extra [source, edit] steps of the caller)
         for c in core.load_corpus("C09"):
-            scns.append((c["spec"], c.get("pats", []), c.get("lists", [])))
+            scns.append((c["spec"], c.get("pats", []), c.get("lists", []), c.get("owned", [])))
         ncorpus = len(scns)
         N = 40 if chk.quick else 450
         H = 35 if chk.quick else 400
         S = 25 if chk.quick else 250
         for _ in range(N):
-            scns.append((gen.spec(), [], []))
+            scns.append((gen.spec(), [], [], []))
         for _ in range(H):
             spec = gen.spec()
             spec["hist"] = gen.history(spec)
-            scns.append((spec, [], []))
+            scns.append((spec, [], [], []))
         for _ in range(S):
             spec = gen.spec()
             spec["hist"] = gen.history(spec, staged=True)
-            scns.append((spec, [], []))
+            scns.append((spec, [], [], []))
+        # the caller edits listings it was handed: as the last step of the history of a not-staged scenario (in the staged ones it is
+        # among the queries of every step); the queries of the final state follow on the same database object
+        for spec, xp, xl, xo in scns:
+            hist = spec.get("hist", [])
+            if any(o[0] == "ask" and o[1] is None for o in hist) or not (xo or rng.random() < 0.75):
+                continue
+            steps = [list(a) for a in xo] + [[rng.choice(OWN_SOURCES)[0], rng.choice(OWN_EDITS)] for _ in range(rng.choice([1, 2]))]
+            spec["hist"] = hist + [["ask", [["owned", a, False] for a in steps]]]
         states, todo = [], []
         deferred = (cwd, [])
-        for i, (spec, xp, xl) in enumerate(scns):
+        for i, (spec, xp, xl, xo) in enumerate(scns):
             carried = []          # patterns of the earlier stages of this scenario: asked again in the later ones
 
-            def hook(db, vals, opi, op, spec=spec, carried=carried):
-                if not db.register_keys:
+            spoiled = []          # set when an edit of the caller changed the database: its register is not the record any more
+
+            def hook(db, vals, opi, op, spec=spec, carried=carried, xo=xo, spoiled=spoiled):
+                if not db.register_keys or spoiled:
                     op[1] = []
                     return
                 if op[1] is None:
-                    op[1] = [list(t) for t in enqueue(rng, True, db, 5, 2, extra_pats=carried[-4:], nspell=1, nentry=1)]
+                    op[1] = [list(t) for t in enqueue(rng, True, db, 5, 2, extra_pats=carried[-4:], nspell=1, nentry=1,
+                                                         nowned=1, extra_owned=xo)]
                     carried.extend(a for w, a, r in op[1] if w == "list" and a not in carried and a != "*")
                 qs = op[1]
                 chk.dist("stage")
                 for qi, (what, arg, rel) in enumerate(qs):
                     def base(qi=qi):
                         return fl.base(dict(spec, hist=spec["hist"][:opi] + [["ask", qs[:qi]]]))
+                    nf = len(chk.failing)
                     evaluate(chk, db, vals, base, what, arg, rel=rel, defer=deferred)
+                    if what == "owned" and len(chk.failing) > nf:
+                        spoiled.append(opi)          # (reported; what follows on this object would only repeat it in other words)
+                        return
 
             try:
                 db, vals = realise(fl, spec, hook=hook)
             except Crash as e:
                 crashed(chk, fl.base(spec), e)
                 continue
-            if not db.register_keys:
+            if not db.register_keys or spoiled:
                 continue
             states.append((db, vals, fl.base(spec)))
             todo.append(enqueue(rng, chk.quick, db, 18, 6, xp, xl))
